@@ -31,7 +31,11 @@ RULE = (
     'only turn up once the producers returned, on a bounded buffer, with and without '
     'ignore_error, or (b) the sources sleep before 1-2 elements and the consumers (any mode, '
     'one forced to get_batch(k, block=True)) retry after a TimeoutError; oracle: no produced '
-    'element vanishes without a reported error. Polling variants of every configuration '
+    'element vanishes without a reported error. batch_then_away variant of every configuration '
+    '(vlib/qwork.away_variants): buffer of 2-3 with a timeout, 2-4 producers x 2-4 elements, one '
+    'consumer that only dequeues through get_batch() / the iterator and is parked between its '
+    'operations until the buffer is full again or every producer returned; fault-free oracle. '
+    'Polling variants of every configuration '
     '(vlib/qwork.poll_variants): one side uses the public non-blocking operation in a loop - one '
     'or all consumers only call get_nowait() (queue.Empty = try again) against producers blocking '
     'in put() on a bounded buffer of 1-3 (at least one source longer than the buffer) or on the '
@@ -51,6 +55,7 @@ ASSUMPTIONS = [
     'timing variants: a sleeping thread is a timed wait that never becomes enabled; which of several pending timed waits (sleeps, queue timeouts) expires first under global starvation is a seeded choice, i.e. a sleep may be shorter or longer than the timeout; TimeoutErrors are expected there and are not verdicts',
     'timing variants: a consumer retries a dequeue that raised TimeoutError as long as queue.exception is None (at most 40 times, then it ends with the TimeoutError); a run in which any producer raised, the queue recorded an exception or a consumer ended with an exception counts as reported and is not checked for completeness',
     'timing and polling variants: put() of the queue instance and the raw buffer object (get_nowait / put_nowait / empty) are wrapped by pass-through recorders (used only to attribute a loss or a starved peer to its call site, never for the verdict)',
+    'batch_then_away variant: the consumer is not runnable between its queue operations until the buffer is full or all producers returned (a consumer busy for longer than the timeout); a timed wait that expires meanwhile (only under global starvation) belongs to a producer asleep in put() although the buffer has room: the resulting TimeoutError / failed stream is a violation (fault-free oracle)',
     'polling variants: a poller that got queue.Empty / queue.Full polls again once the outcome of the poll can have changed (buffer non-empty, queue done or exhausted / buffer not full): equivalent to spinning, but a spinner cannot starve the schedule or mask a deadlock; at most 400 polls per element (a case that hits the bound is inconclusive)',
     'polling variants: producers that put_nowait() are not registered enqueuers (max_enqueuer unset, no return values); the end of the stream is the public maybe_stop() issued by the last of them after its last element was put, immediately or once the buffer is empty; blocking and polling producers are never mixed on one queue (the queue cannot know an unregistered producer is still running)',
     'polling variants: a timed wait (timeout configured) of the blocking peer can only expire under global starvation, i.e. when every poller waits for a change of the buffer: such a TimeoutError in a fault-free run is a violation as in the base cases',
@@ -62,7 +67,8 @@ REQUIRED = ['async_cases', 'schedules', 'line_preemptions', 'lock_ops', 'cond_wa
             'poll_cases', 'poll_consumer_polls', 'poll_producer_polls', 'poll_both_poll',
             'poll_get_nowait_calls', 'poll_put_nowait_calls', 'poll_empty_seen', 'poll_full_seen',
             'poll_close_after_drain', 'async_awaitable_cases', 'async_awaitables_resolved',
-            'async_return_values_seen']
+            'async_return_values_seen', 'away_cases', 'away_parks',
+            'away_batches_freeing_several_slots']
 CHUNK_TIMEOUT_S = {'quick': 300, 'thorough': 3000}
 
 MODES = ['get', 'get', 'batch_nb:1', 'batch_nb:2', 'batch_nb:3',
@@ -148,6 +154,8 @@ def run_one(ctx, case):
 def check_timing(ctx, case, sched, log, info, prefix=''):
   """Oracle + counters of one timing-variant schedule (shared with C05)."""
   from vlib import qwork
+  if case['scn'] == 'batch_then_away':
+    return check_away(ctx, case, sched, log, info)
   ctx.count('timing_cases')
   ctx.count('timing_' + case['scn'])
   ctx.count('timing_timeouts_fired', sched.timeouts_fired)
@@ -166,6 +174,24 @@ def check_timing(ctx, case, sched, log, info, prefix=''):
     ctx.violation(kind, case, {'detail': detail, 'log_tail': log[-30:]}, mechanism=mech)
   if len(ctx.samples) < 5 and ctx.counters.get('timing_cases', 0) <= 2:
     ctx.sample({'case': case, 'events': log[:40]})
+
+
+def check_away(ctx, case, sched, log, info):
+  """Oracle + counters of one 'batch_then_away' schedule (vlib/qwork.away_variants)."""
+  from vlib import qwork
+  ctx.count('away_cases')
+  ctx.count('away_parks', sum(1 for e in log if e[0] == 'away'))
+  ctx.count('away_timeouts_fired', sched.timeouts_fired)
+  ops = [i for i, e in enumerate(log) if e[0] == 'op'] + [len(log)]
+  ctx.count('away_batches_freeing_several_slots',
+            sum(1 for a, b in zip(ops, ops[1:])
+                if sum(1 for e in log[a:b] if e[0] == 'deq') >= 2))
+  problems, ev = qwork.analyse_away(case, sched, log)
+  if not problems:
+    ctx.count('away_complete_streams')
+  for kind, detail, mech in problems:
+    report_once_per_class(ctx, kind, case,
+                          {'detail': detail, 'evidence': ev, 'log_tail': log[-30:]}, mech)
 
 
 _WITNESSED = set()
@@ -334,7 +360,7 @@ def run_chunk(ctx, spec):
   from vlib import qwork
   trng = random.Random(spec['rseed'] * 7919 + spec['chunk'] + 4004)
   for cfg in mine:
-    for variant in qwork.timing_variants(cfg, trng):
+    for variant in qwork.timing_variants(cfg, trng) + qwork.away_variants(cfg, trng):
       for j in range(spec.get('n_tsched', 8)):
         case = dict(variant)
         case['sched_seed'] = trng.randrange(1 << 30)
